@@ -118,4 +118,12 @@ COMPONENTS = [
               shards={'quick': 1, 'thorough': 1},
               describe='the same table re-checked in child interpreters started with -O '
                        'and -OO (asserts / docstrings stripped)'),
+    Component('preludes', optchild.flagged('C17', check),
+              bulk=optchild.make_bulk('C17', ['table'], flags=('',),
+                                      preludes=('bases', 'subclass')),
+              distinct_by_construction=True, exhaustive=True,
+              shards={'quick': 1, 'thorough': 1},
+              describe='the same sweep in child interpreters after an application-style '
+                       'prelude: accessors called on the abstract bases first; '
+                       'application subclasses of every exception / frame class'),
 ]
